@@ -60,6 +60,9 @@ class PivotedCholesky(Function):
             permuted_diags = torch.gather(matrix_diag, -1, permutation[..., m:])
             max_diag_values, max_diag_indices = torch.max(permuted_diags, -1)
             max_diag_indices = max_diag_indices + m
+            # batch members whose residual is already (numerically) zero contribute zero columns from here on
+            exhausted = max_diag_values <= matrix_shape[-1] * torch.finfo(matrix_diag.dtype).eps * orig_error
+            max_diag_values = max_diag_values.masked_fill(exhausted, 1.0)
 
             # Swap pi_m and pi_i in each row, where pi_i is the element of the permutation
             # corresponding to the max diagonal element
@@ -88,6 +91,7 @@ class PivotedCholesky(Function):
                     L_m_new -= torch.sum(update * L_prev, dim=-2)
 
                 L_m_new /= L_m.gather(-1, pi_m.unsqueeze(-1))
+                L_m_new = L_m_new.masked_fill(exhausted.unsqueeze(-1), 0.0)
                 L_m.scatter_(-1, pi_i, L_m_new)
 
                 matrix_diag_current = matrix_diag.gather(-1, pi_i)
@@ -97,6 +101,7 @@ class PivotedCholesky(Function):
                 # Keep track of errors - for potential early stopping
                 errors = torch.norm(matrix_diag.gather(-1, pi_i), 1, dim=-1) / orig_error
 
+            L[..., m, :].masked_fill_(exhausted.unsqueeze(-1), 0.0)
             m = m + 1
 
         # Save items for backward pass, and return output
